@@ -269,7 +269,171 @@ def _bounded_mean_and_reduction(tier, seed):
 
 BOUNDED = [Bounded("mean_method_and_scaling", _bounded_mean_and_reduction)]
 
-CONTRACTS = [equilibrium_peak, friction_velocity, u10]
+# ---- equilibrium_range_values, method "mean": minimum-relative-variance window of `number_of_bins` consecutive bins
+from pyvc.loops import LoopContract
+
+
+def scaled(sp, p, k, power):
+    """E f^power at frequency k (the mean method does not fill missing bins: NaN-free spectra in the proved instances)"""
+    return sp.E(p, k) * powr(sp.f[k], power)
+
+
+def window_mean(sp, p, i, nb, power):
+    """mean of E f^power over the bins [i, i + nb)"""
+    return sum(scaled(sp, p, i + k, power) for k in range(nb)) / nb
+
+
+def window_measure(sp, p, i, nb, power):
+    """the quantity the code minimises over window starts i (from the code, the statement is silent):
+    mean_k (S_k - m)^2 / m^2  over the nb bins starting at i, m their mean"""
+    m = window_mean(sp, p, i, nb, power)
+    dev = sum((scaled(sp, p, i + k, power) - m) * (scaled(sp, p, i + k, power) - m) for k in range(nb)) / nb
+    return dev / (m * m)
+
+
+def first_argmin(lo, hi, fn):
+    """first index in [lo, hi) at which fn is minimal (np.argmin's rule)"""
+    if is_symbolic(lo, hi) or is_symbolic(fn(lo)):
+        bv = T.Fresh.int("m")
+        return T.make_argmax(lo, hi, bv, -T.to_real(T.to_z3(fn(bv))), z3true())
+    best = None
+    for k in range(int(lo), int(hi)):
+        if best is None or fn(k) < fn(best):
+            best = k
+    return best
+
+
+def search_range(sp, a, nb):
+    """[lo, hi): the window starts the code compares (from the code): lo = bin nearest to 0 Hz, hi = bin nearest to fmax, + 1 - nb,
+    at least lo + 1, at most nf - nb (so that every compared window lies inside the spectrum)"""
+    key = None
+    if is_symbolic(sp.nf):
+        # one pair of search terms per symbolic spectrum (requires and ensures are built separately; a second pair of
+        # function symbols for the same two searches would have to be identified with the first by the solver)
+        key = (str(sp.f[0]), str(sp.nf), str(a.fmax), nb)
+        if key in _RANGE_TERMS:
+            return _RANGE_TERMS[key]
+    lo = first_argmin(0, sp.nf, lambda k: absv(sp.f[k] - 0))
+    top = first_argmin(0, sp.nf, lambda k: absv(sp.f[k] - a.fmax)) + 1 - nb
+    hi = If(top >= lo + 1, top, lo + 1)
+    hi = If(hi <= sp.nf - nb, hi, sp.nf - nb)
+    if key is not None:
+        _RANGE_TERMS[key] = (lo, hi)
+    return lo, hi
+
+
+_RANGE_TERMS = {}
+
+
+def room_for_a_window(sp, a, nb):
+    if not is_symbolic(sp.nf) and sp.nf == 0:
+        return False
+    lo, hi = search_range(sp, a, nb)
+    return And(sp.nf > 0, sp.nf - nb >= lo + 1)
+
+
+def selected_start(sp, a, p, nb, rng=None):
+    """the window start the code selects: the first minimiser of the window measure over [lo, hi)
+    (rng: the search range if the caller has built it already - one search term per bound keeps the obligation small)"""
+    lo, hi = search_range(sp, a, nb) if rng is None else rng
+    return lo + first_argmin(0, hi - lo, lambda c: window_measure(sp, p, lo + c, nb, a.power))
+
+
+def clipped(sp, i, nb):
+    """np.clip(i, 0, nf - 1 - nb) exactly as the code clips the bins of the selected window (from the code: the bound is
+    nf - 1 - number_of_bins, not nf - 1, so a window that starts above nf - 2 nb repeats the bin nf - 1 - nb)"""
+    top = sp.nf - 1 - nb
+    return If(i < 0, 0, If(i > top, top, i))
+
+
+def mean_over_selected_window(sp, a, p, nb, value, i=None):
+    i = selected_start(sp, a, p, nb) if i is None else i
+    return sum(value(clipped(sp, i + k, nb)) for k in range(nb)) * (1 / Fraction(nb) if is_symbolic(i) else 1.0 / nb)
+
+
+def _mean_level(nb):
+    def post(a, r):
+        sp = Spec(a.spectrum)
+        e = _vec(r[0])
+        return forall(0, sp.np_, lambda p: eq(e(p), mean_over_selected_window(sp, a, p, nb, lambda k: scaled(sp, p, k, a.power))), "p")
+    return post
+
+
+def _mean_moments(nb):
+    def post(a, r):
+        sp = Spec(a.spectrum)
+        a1, b1 = _vec(r[1]), _vec(r[2])
+        def one(p):
+            i = selected_start(sp, a, p, nb)      # one search term shared by the two moments
+            return And(eq(a1(p), mean_over_selected_window(sp, a, p, nb, lambda k: sp.var("a1", p, k), i)),
+                       eq(b1(p), mean_over_selected_window(sp, a, p, nb, lambda k: sp.var("b1", p, k), i)))
+        return forall(0, sp.np_, one, "p")
+    return post
+
+
+def _mean_power_law(nb):
+    """from the statement: on a spectrum that is exactly c f^-power over the searched band the level is c"""
+    def post(a, r):
+        sp = Spec(a.spectrum)
+        e = _vec(r[0])
+        lo, hi = search_range(sp, a, nb)
+        return forall(0, sp.np_, lambda p: implies(forall(lo, sp.nf, lambda k: eq(scaled(sp, p, k, a.power), scaled(sp, p, lo, a.power), rtol=1e-12, atol=0), "k"),
+                                                   eq(e(p), scaled(sp, p, lo, a.power))), "p")
+    return post
+
+
+def _mean_means_nonzero(nb):
+    def pre(a):
+        sp = Spec(a.spectrum)
+        if not is_symbolic(sp.nf) and sp.nf == 0:
+            return True
+        lo, hi = search_range(sp, a, nb)
+        # the window total is written with the Sum operator (Sum_{k in [i, i+nb)} S_k, the same number as the unrolled sum): as a
+        # hypothesis the unrolled form E(p,i) ... E(p,i+nb-1) would be a matching loop for the solver (each instance offers the next i)
+        return forall(0, sp.np_, lambda p: forall(lo, hi, lambda i: Not(eq(Sum(i, i + nb, lambda k: scaled(sp, p, k, a.power)), 0, rtol=0, atol=0)), "i"), "p")
+    return pre
+
+
+def _p_eq_mean(nb):
+    def p(mk):
+        return {"spectrum": spectrum(mk, "1d", nan=False), "method": "mean", "fmax": mk.real("fmax"), "power": 4, "number_of_bins": nb}
+    return p
+
+
+def _mean_loop_inv(nb):
+    def inv(ns):
+        """the counter runs with the loop index; every column of `variance` filled so far holds the window measure.
+        (one quantifier over (p, c) with the cell variance[p, c] as its pattern: as a hypothesis, patterns inferred from the
+        measure's E(p, i_min + c + k) terms would be a matching loop)"""
+        import z3
+        sp = Spec(ns.spectrum)
+        p, c = T.Fresh.int("p"), T.Fresh.int("c")
+        cell = T.to_z3(ns.variance[p, c])
+        body = z3.Implies(z3.And(p >= 0, p < T.to_z3(sp.np_), c >= 0, c < T.to_z3(ns.i_counter)),
+                          T.to_z3(eq(ns.variance[p, c], window_measure(sp, p, ns.i_min + c, nb, ns.power))))
+        plain = z3.is_app(cell) and cell.decl().kind() == z3.Z3_OP_UNINTERPRETED and cell.num_args() == 2
+        filled = z3.ForAll([p, c], body, patterns=[cell]) if plain else z3.ForAll([p, c], body)
+        return And(ns.i_counter == ns.iFreq - ns.i_min, filled)
+    return inv
+
+
+MEAN_BINS = (2, 3)
+_only = lambda nb: {f"bins{nb}"}
+equilibrium_mean = Contract(
+    W + "equilibrium_range_values", label="equilibrium_range_values.mean", instances=[(f"bins{nb}", _p_eq_mean(nb)) for nb in MEAN_BINS],
+    requires=[("dims", lambda a: And(Spec(a.spectrum).np_ >= 0, Spec(a.spectrum).nf >= 0))]
+             + [(f"window_means_nonzero", _mean_means_nonzero(nb), _only(nb)) for nb in MEAN_BINS],
+    ensures=[c for nb in MEAN_BINS for c in (
+        ("level_is_mean_of_E_fpower_over_the_minimum_variance_window", _mean_level(nb), _only(nb)),
+        ("moments_are_means_over_the_same_window", _mean_moments(nb), _only(nb)),
+        ("level_is_c_on_an_exact_power_law_band", _mean_power_law(nb), _only(nb)))],
+    raises={"ValueError": lambda a: Not(room_for_a_window(Spec(a.spectrum), a, a.number_of_bins))},
+    native=_nat,
+    options={"nl_factor_order": "symbol", "argmax_congruence": "semantic", "check_bounds": True,
+             "loop_invariants": {f"bins{nb}": {1: LoopContract(invariant=[("variance_filled_with_the_window_measure", _mean_loop_inv(nb))])} for nb in MEAN_BINS}},
+)
+
+CONTRACTS = [equilibrium_peak, friction_velocity, u10, equilibrium_mean]
 TRUSTED = ["xarray library contracts (argmax, pointwise isel, Dataset construction / assign)", "log, arctan2 uninterpreted (A-table ranges)",
            "the 2D input is reduced by as_frequency_spectrum (contract in C02) before friction_velocity is called"]
 EXPLANATION = ("peak method: E_eq proved to be the maximum of fill0(E f^4) and the moments taken at its first maximiser; u* = 8 pi^3 E_eq / (4 g I beta), "
